@@ -405,6 +405,36 @@ async def c13_name2id_other_context(w):
             "expected": {"result": [True]}}
 
 
+async def c08_event_filter_value(w):
+    """@event_trigger("ev", "x") where the filter expression is the event parameter x itself: the function runs iff x is true in
+    a boolean context - whatever object it is (None, 0, '', [] reject; 1, 'a' accept).  Both subsystems."""
+    from types import SimpleNamespace as NS
+    from custom_components.pyscript.global_ctx import GlobalContext, GlobalContextMgr
+    values = [True, False, None, 0, "", [], 1, "a", [0]]
+    out = {}
+    for sub in ("new", "legacy"):
+        hass = await boot_full(legacy=(sub == "legacy"))
+        ran = []
+        name = f"file.c08f_{sub}"
+        g = GlobalContext(name, global_sym_table={"__name__": name, "note": lambda v: ran.append(v)}, manager=GlobalContextMgr)
+        GlobalContextMgr.set(name, g)
+        g.set_auto_start(True)
+        _, _, exc = await run_source(name, "@event_trigger('c08_ev', 'x')\ndef f(i=None, **kw):\n    note(i)\n", global_ctx=g)
+        await settle(40)
+        for i, v in enumerate(values):
+            for cb in list(hass.bus.listeners.get("c08_ev", [])):
+                await cb(NS(event_type="c08_ev", context=None, data={"x": v, "i": i}))
+            await settle(40)
+        want = [i for i, v in enumerate(values) if v]
+        out[sub] = {"ran_for": sorted(ran), "expected": want, "error": repr(exc) if exc else None}
+        g.stop()
+        GlobalContextMgr.delete(name)
+        await settle(40)
+        await shutdown()
+    bad = {k: v for k, v in out.items() if v["ran_for"] != v["expected"]}
+    return {"reproduced": bool(bad), "observed": out, "values": [repr(v) for v in values], "expected": "runs exactly for the true values"}
+
+
 async def c12_outgoing(w):
     """service.call / domain.service() with control-keyword look-alikes; data delivered must equal the given kwargs
     minus control keywords of the recognised type."""
@@ -459,7 +489,17 @@ async def c09_mqtt_subscribe_window(w):
     obs = {}
     t = asyncio.get_running_loop().create_task(Mqtt.notify_add("a/b", q1))
     await asyncio.sleep(0.01)
-    if w.get("mode") == "concurrent":
+    if w.get("mode") == "two-subscribers":
+        # a second trigger subscribes to the same topic while the first is suspended; afterwards one message must reach each
+        # queue exactly once through exactly one MQTT subscription
+        t2 = asyncio.get_running_loop().create_task(Mqtt.notify_add("a/b", q2))
+        await asyncio.gather(t, t2, return_exceptions=True)
+        await Mqtt.update("a/b", {"trigger_type": "mqtt", "topic": "a/b", "payload": "x"}) if hasattr(Mqtt, "update") else None
+        got = {"q1": q1.qsize(), "q2": q2.qsize()}
+        obs = {"subscriptions": list(subs), "queues_registered": len(Mqtt.notify.get("a/b", ())), "messages_per_queue_for_one_update": got}
+        rep = subs != ["a/b"] or got != {"q1": 1, "q2": 1}
+        exp = "one MQTT subscription for the topic; both queues registered; one message each"
+    elif w.get("mode") == "concurrent":
         err = None
         try:
             await Mqtt.notify_add("a/b", q2)
@@ -531,6 +571,28 @@ async def c09_dropped_before_start(w):
             await shutdown()
     bad = {k: v for k, v in out.items() if v["ran"] != v["expected"]}
     return {"reproduced": bool(bad), "observed": out, "expected": "only the definition still referenced reacts: ['new'] after a redefinition, [] after del"}
+
+
+async def c09_legacy_stop_twice(w):
+    """Legacy subsystem: a function with a shutdown time trigger and no @service is deleted (its shutdown occurrence runs, once),
+    then its context is unloaded: the removed function must not run again."""
+    from custom_components.pyscript.global_ctx import GlobalContext, GlobalContextMgr
+    await boot_full(legacy=True)
+    ran = []
+    g = GlobalContext("file.c09s", global_sym_table={"__name__": "file.c09s", "note": lambda v: ran.append(v)}, manager=GlobalContextMgr)
+    GlobalContextMgr.set("file.c09s", g)
+    g.set_auto_start(True)
+    _, _, e1 = await run_source("file.c09s", "@time_trigger('shutdown')\ndef bye():\n    note('bye')\n", global_ctx=g)
+    await settle(40)
+    _, _, e2 = await run_source("file.c09s", "del bye\n", global_ctx=g)
+    await settle(60)
+    after_del = list(ran)
+    g.stop()
+    GlobalContextMgr.delete("file.c09s")
+    await settle(80)
+    await shutdown()
+    return {"reproduced": after_del != ["bye"] or ran != ["bye"], "observed": {"after_del": after_del, "after_unload": list(ran), "errors": [repr(e1), repr(e2)]},
+            "expected": {"after_del": ["bye"], "after_unload": ["bye"]}}
 
 
 async def c09_state_notify_del(w):
